@@ -38,7 +38,7 @@ REAL_STUB = {
 }
 EXPECTED_PROBES = ["probe_eviction", "probe_reopen", "probe_get_after_evict", "probe_oversize_rejected", "probe_missing_get",
                    "probe_overwrite", "probe_unload", "probe_table_merge_conflict", "probe_table_with_holes_read",
-                   "probe_table_stored_with_pending_insert", "probe_get_raised_after_read_error",
+                   "probe_table_stored_with_pending_insert", "probe_table_batch_unordered_or_repeating", "probe_get_raised_after_read_error",
                    "probe_missing_get_on_the_path_of_a_set_key", "probe_returned_table_mutated"]
 WALL_CAP = {"quick": 300, "thorough": 3600}
 
@@ -350,7 +350,7 @@ def scenario_tables(ch, cfg):
     keys = [pool.pop(ch.draw(len(pool), "key")) for _ in range(nkeys)]
     nops = 3 + ch.draw(14, "nops")
     lim_kind = ch.weighted([2, 2, 2], "limit")
-    limit = [1 << 30, 2400, 4800][lim_kind]
+    limit = [1 << 30, 3600, 7200][lim_kind]      # (a table of all nine index values serializes to about 3.2 kB)
     stats = w.stats
     violations = []
     model = {}
@@ -374,8 +374,15 @@ def scenario_tables(ch, cfg):
 
     def mk_table():
         n = 1 + ch.draw(3, "rows")
+        batch = False
         if indexed:
             idx = sorted({ch.draw(6, "idx") for _ in range(n)})
+            if ch.draw(4, "batch") == 0:
+                # a batch as a feed delivers it: later index values than anything stored so far, not necessarily in order,
+                # one index value possibly twice (a correction following the original)
+                batch = True
+                idx = [6 + ch.draw(3, "batch.ix") for _ in range(2 + ch.draw(2, "batch.n"))]
+                stats["probe_table_batch_unordered_or_repeating"] += 1
         else:
             idx = list(range(n))
         vals = [100 * (len(log) + 1) + j for j in range(len(idx))]
@@ -391,7 +398,7 @@ def scenario_tables(ch, cfg):
         if ch.draw(5, "nob") == 0:
             del cols["b"]
             stats["probe_table_missing_column"] += 1
-        klongtable = bool(indexed and ch.draw(2, "klongtable"))
+        klongtable = bool(indexed and not batch and ch.draw(2, "klongtable"))
 
         def make():
             if klongtable:
@@ -413,7 +420,7 @@ def scenario_tables(ch, cfg):
             twin_t.insert(arr.copy())
             stats["probe_table_stored_with_pending_insert"] += 1
         klong._context[KGSym("T")] = t
-        return table_rows(twin_t)         # (reading the rows commits the buffer: done on the twin, not on the table to be stored)
+        return table_row_list(twin_t)     # (reading the rows commits the buffer: done on the twin, not on the table to be stored)
 
     def _cell(x):
         if isinstance(x, str):
@@ -430,6 +437,15 @@ def scenario_tables(ch, cfg):
         for ix, row in zip(df.index, df.itertuples(index=False)):
             key = tuple(ix) if isinstance(ix, tuple) else (int(ix),)
             out[tuple(int(x) for x in key)] = {c: _cell(x) for c, x in zip(names, row)}
+        return out
+
+    def table_row_list(t):
+        df = t.get_dataframe()
+        names = [str(c) for c in df.columns]
+        out = []
+        for ix, row in zip(df.index, df.itertuples(index=False)):
+            key = tuple(ix) if isinstance(ix, tuple) else (int(ix),)
+            out.append((tuple(int(x) for x in key), {c: _cell(x) for c, x in zip(names, row)}))
         return out
 
     def with_holes(key):
@@ -468,16 +484,22 @@ def scenario_tables(ch, cfg):
                         stats["probe_stored_table_mutated_afterwards"] += 1
                     cur = model.setdefault(key, {})
                     seen = state["columns"].setdefault(key, [])
-                    for row in rows.values():
+                    for _ix, row in rows:
                         for c in row:
                             if c not in seen:
                                 seen.append(c)
-                    for ix, row in rows.items():
-                        if ix in cur:
+                    fresh_ix = set()
+                    for ix, row in rows:
+                        if ix in cur and ix not in fresh_ix:
                             stats["probe_table_merge_conflict"] += 1
+                        elif ix in fresh_ix:
+                            # the same index value twice inside one new table: which of its rows stays is not prescribed,
+                            # only that exactly one does
+                            state.setdefault("alts", {}).setdefault((key, ix), []).append(row)
                         else:
                             cur[ix] = row
-                    log.append(f"set({key},{[(ix[0], sorted(c for c in r if c != 's'), r.get('b', r.get('c'))) for ix, r in sorted(rows.items())]})")
+                            fresh_ix.add(ix)
+                    log.append(f"set({key},{[(ix[0], sorted(c for c in r if c != 's'), r.get('b', r.get('c'))) for ix, r in rows]})")
                 except BaseException as e:   # noqa
                     if isinstance(e, SystemExit):
                         raise
@@ -489,6 +511,10 @@ def scenario_tables(ch, cfg):
                     got = klong(f'tbs?"{key}"')
                     if isinstance(got, Table):
                         res = table_rows(got)
+                        nrows = len(table_row_list(got))
+                        if indexed and nrows != len(res):
+                            violations.append({"sig": "C16:table-get:index-value-more-than-once", "msg": f"op {i}: table {key!r} has {nrows} rows for "
+                                               f"{len(res)} distinct index values: {[ix[0] for ix, _ in table_row_list(got)]}"})
                     else:
                         res = canon(got)
                 except BaseException as e:   # noqa
@@ -500,6 +526,12 @@ def scenario_tables(ch, cfg):
                     stats["probe_table_with_holes_read"] += 1
                 if key not in model:
                     stats["probe_missing_get"] += 1
+                if res != want and key in model and isinstance(res, dict) and set(res) == set(want):
+                    # rows for which the new table itself offered several candidates: any of them
+                    cols_ = state["columns"].get(key, [])
+                    alts = state.get("alts", {})
+                    if all(res[ix] == want[ix] or any(res[ix] == {c: r.get(c) for c in cols_} for r in alts.get((key, ix), [])) for ix in want):
+                        res = want
                 if res != want:
                     if key not in model:
                         violations.append({"sig": "C16:table-get-missing", "msg": f"op {i}: never-set table {key!r} reads {res}"})
